@@ -159,7 +159,7 @@ def judge(chk, c, obs, dropped):
 
 def main(tier, seed, scale=1.0):
     chk = Check(PROP, tier, seed)
-    n = int((400 if tier == "quick" else 40000) * scale)
+    n = int((960 if tier == "quick" else 40000) * scale)
     cap = 12 if tier == "quick" else 24
     chk.rule = ("random struct/enum definitions with Debug educed: type/variant name (default, renamed, disabled, "
                 "enabled), named_field on structs and variants, field ignore/rename/method in random spellings; one "
